@@ -161,19 +161,21 @@ Variable props : list name.         (* names for which hasattr is True on every 
 Variable internal : list name.      (* self._properties + init attributes in __dict__ *)
 Variable basep : list name.         (* plain properties computed from the sliced init attributes
                                        (label, slices / id): never cached *)
-Variable desc : name -> pdesc.
+Variable desc : role -> name -> pdesc.  (* the flags are those of the class (role-independent in practice);
+                                         the container kinds are per object: the detection catalog is built
+                                         with other options (error=None, localbkg_width=0, ...) *)
 Variable f : role -> name -> nat -> V.
 Variable nm_isscalar nm_nlabels nm_pixap nm_localbkg : name.
 Variable isc_trace : list name.     (* lazyproperties run by reading isscalar ([] / [_pixel_aperture]) *)
 
 (* which role supplies the values of property p of a catalog with/without detection cat *)
 Definition vrole (r : role) (hasdet : bool) (p : name) : role :=
-  match r with Det => Det | Main => if udet (desc p) && hasdet then Det else Main end.
+  match r with Det => Det | Main => if udet (desc Main p) && hasdet then Det else Main end.
 
 (* a freshly computed value: the method body yields an iterable over the sources;
    as_scalar unwraps it for scalar catalogs *)
 Definition fresh (r : role) (c : core) (p : name) : cval :=
-  let d := desc p in
+  let d := desc r p in
   if pyscal d then CPy else
   let vals := map (f r p) (src c) in
   if scal c then
@@ -198,7 +200,7 @@ Definition eval1_cat (c : cat) (q : name) : cat :=
   | None =>
       match det c with
       | Some d =>
-          if udet (desc q) then
+          if udet (desc Main q) then
             let d' := eval1 Det d q in
             match lookup q (dict d') with
             | Some v => set_main (cache q v (main c)) (set_det d' c)
@@ -233,7 +235,7 @@ Definition slice_value (child_scalar : bool) (p : name) (v : cval) (idx : index)
       | None => None
       | Some (_, pos) =>
           let sel := pick 0%Z l pos in
-          if child_scalar && priv (desc p) && negb ((negb sourcecat) && (p =? nm_pixap)%Z) then
+          if child_scalar && priv (desc Main p) && negb ((negb sourcecat) && (p =? nm_pixap)%Z) then
             match k with
             | KArr => Some (Some (CCont KArr sel))          (* value[:, np.newaxis][index] *)
             | _ => Some (Some (CCont KList sel))            (* [value[index]] *)
@@ -438,6 +440,7 @@ Record world := { heap : heapT; cats : list cat }.
 
 Inductive op :=
 | OEval (j : nat) (p : name) (trm trd : list name)
+| OTouch (j : nat) (trm trd : list name)   (* several reads at once; only their effect on the caches *)
 | OIndex (j : nat) (idx : index)
 | OLabel (j : nat) (one : bool) (labs : list Z)
 | OAdd (j : nat) (nm : name) (v : cval) (overwrite : bool)
@@ -477,6 +480,7 @@ Definition do_index (w : world) (j : nat) (idx : index) : world * obs :=
 Definition step (w : world) (o : op) : world * obs :=
   match o with
   | OEval j p trm trd => let '(c, v) := read (wcat w j) p trm trd in (upd w (heap w) j c, BVal v)
+  | OTouch j trm trd => (upd w (heap w) j (eval_cat (wcat w j) trm trd), BUnit)
   | OIndex j idx => do_index w j idx
   | OLabel j one labs =>
       (* ApertureStats.get_ids reads self.ids (hence isscalar) before validating the ids;
@@ -587,7 +591,7 @@ Definition f_of (t : list (Z * list Z)) (p : name) (s : nat) : V :=
 Record case := {
   k_sourcecat : bool;
   k_lazy : list Z; k_props : list Z; k_internal : list Z; k_basep : list Z;
-  k_desc : list drow;
+  k_desc : list drow; k_desc_det : list drow;
   k_f : list (Z * list Z); k_f_det : list (Z * list Z);
   k_special : Z * Z * Z * Z; k_isc_trace : list Z;
   k_labels : list Z; k_n : Z; k_hasdet : bool; k_d0 : list (Z * list Z);
@@ -598,7 +602,8 @@ Definition model_run (copy : bool) (c : case) : list obs :=
   let '(a, b, p, l) := k_special c in
   let f := fun r => match r with Main => f_of (k_f c) | Det => f_of (k_f_det c) end in
   let d0 := map (fun e => (fst e, CCont KArr (snd e))) (k_d0 c) in
-  snd (run (k_sourcecat c) copy (k_lazy c) (k_props c) (k_internal c) (k_basep c) (desc_of (k_desc c)) f
+  snd (run (k_sourcecat c) copy (k_lazy c) (k_props c) (k_internal c) (k_basep c)
+           (fun r => match r with Main => desc_of (k_desc c) | Det => desc_of (k_desc_det c) end) f
            a b p l (k_isc_trace c) (k_labels c)
            (init_world (Z.to_nat (k_n c)) (k_hasdet c) d0) (k_ops c)).
 
